@@ -1,8 +1,174 @@
-(* Props/C17.v — Serialization is deterministic, canonical and insensitive to map order. *)
+(* Props/C17.v — Serialization is deterministic, canonical and insensitive to map order.
+
+   Objects (Model/TomlValue.v, Spec/Canonical.v):
+     tv                     a toml::Value tree; a table is the list of its entries IN THE ORDER THE MAP
+                            ITERATES, so "every key order of every map" = every list order, at every depth
+     emit_value_doc ml m    the line structure toml::to_string / to_string_pretty (ml) write for Value::Table(m)
+     emit_table_doc ml m    the same for a toml::Table m (Display for Table): no three loops at the root
+     emit_doc three ml m    one or the other
+     sections_of            the reference document (own values, then arrays of tables, then sub-tables)
+     read_back / decode o   the reference reader of documents (o: BTreeMap or IndexMap as toml::Map);
+                            it refuses whatever TOML forbids (a key or table defined twice, ...)
+     wf_tv                  keys of every map distinct (invariant of toml::Map)
+     tv_equiv v w           v and w are equal once every map is sorted by key: equal up to map order
+   Leaves are opaque tokens: how they are written and read back is C10 / C11 / C12. *)
 From TV Require Import Base.Prelude Spec.Ordered Model.TomlValue Spec.Canonical.
-From TV Require Import Proofs.CanonicalBase.
+From TV Require Import Proofs.CanonicalBase Proofs.CanonicalEmit Proofs.CanonicalRead Proofs.CanonicalOrder Proofs.CanonicalTop.
+From Coq Require Import Permutation.
+
+(* the three-loop serializer, DocumentFormatter and visit_nested_tables / visit_table together write the
+   reference document, for every value and every order of every map *)
+Theorem C17_canonical_document : forall ml m,
+  emit_value_doc ml m = sections_of ml true m /\ emit_table_doc ml m = sections_of ml false m.
+Proof. exact canonical_document. Qed.
+Print Assumptions C17_canonical_document.
+
+(* VALUES BEFORE TABLES.  Any table value m — the root, a sub-table or an element of an array of tables,
+   with its entries in any order — once serialized and formatted (t), written at any path p:
+   after a section of one of its sub-tables / arrays of tables (path strictly below p) every later
+   section is strictly below p as well, so no key/value line of m itself follows.  (The sections of a
+   nested table are exactly such a block: Proofs/CanonicalEmit.v visit_nested_eq.) *)
+Theorem C17_values_before_tables : forall ml m t p a pre s post,
+  fmt_item ml (ser_value (TTab m)) = ITbl t ->
+  flat_map visit_table (visit_nested t p a) = pre ++ s :: post ->
+  strict_prefix p (s_path s) ->
+  Forall (fun s' => strict_prefix p (s_path s')) post.
+Proof. exact values_before_tables_model. Qed.
+Print Assumptions C17_values_before_tables.
+
+(* ... more precisely: first the table's own section (all its key/value lines; left out only for a
+   non-empty table without values), then sections strictly below it *)
+Theorem C17_table_shape : forall ml m t p a,
+  fmt_item ml (ser_value (TTab m)) = ITbl t ->
+  flat_map visit_table (visit_nested t p a)
+  = own_section ml true m p (kind_of p a) ++ rest_secs ml true m p /\
+  Forall (fun s => strict_prefix p (s_path s)) (rest_secs ml true m p).
+Proof. exact table_shape. Qed.
+Print Assumptions C17_table_shape.
+
+(* for whole documents of both printers: no root key/value line after the first header *)
+Theorem C17_values_before_tables_doc : forall ml m pre s post,
+  (emit_value_doc ml m = pre ++ s :: post \/ emit_table_doc ml m = pre ++ s :: post) ->
+  s_path s <> [] -> Forall (fun s' => s_path s' <> []) post.
+Proof. exact values_before_tables_doc. Qed.
+Print Assumptions C17_values_before_tables_doc.
+
+(* ANY ORDER DECODES.  The document is accepted by the reader and holds v up to the order of map entries *)
+Theorem C17_any_order_decodes : forall three ml m,
+  wf_tv (TTab m) = true ->
+  exists r, read_back (emit_doc three ml m) = Some r /\ tv_equiv (TTab r) (TTab m).
+Proof. exact any_order_decodes. Qed.
+Print Assumptions C17_any_order_decodes.
+
+(* two values that differ only in the order of map entries (at any depth) give documents that decode to
+   values that differ only so — with either printer and either layout *)
+Theorem C17_any_order_same_value : forall three three' ml ml' m m',
+  wf_tv (TTab m) = true -> wf_tv (TTab m') = true -> tv_equiv (TTab m) (TTab m') ->
+  exists r r', read_back (emit_doc three ml m) = Some r /\ read_back (emit_doc three' ml' m') = Some r' /\
+               tv_equiv (TTab r) (TTab r').
+Proof. exact any_order_same_value. Qed.
+Print Assumptions C17_any_order_same_value.
+
+(* a permutation of the entries of a map is such a difference *)
+Theorem C17_permutation_is_equiv : forall m m',
+  NoDup (map fst m) -> Permutation m m' -> tv_equiv (TTab m) (TTab m').
+Proof. exact permutation_equiv. Qed.
+Print Assumptions C17_permutation_is_equiv.
+
+(* under BTreeMap the decoded value is exactly v (a BTreeMap-backed value is sorted at every level) *)
+Theorem C17_decodes_to_v_sorted : forall three ml m,
+  wf_tv (TTab m) = true -> sorted_tv (TTab m) -> decode OSorted (emit_doc three ml m) = Some m.
+Proof. exact decode_sorted_exact. Qed.
+Print Assumptions C17_decodes_to_v_sorted.
+
+(* ONE-STEP FIXED POINT, under sorted-map iteration and under insertion-order iteration, for
+   to_string(&Value) (three = true) and for Display of a parsed toml::Table (three = false: "printing a
+   parsed Table twice gives the same text"); the second print may even use the other layout *)
+Theorem C17_fixpoint : forall three o ml ml' m,
+  wf_tv (TTab m) = true -> order_inv o m ->
+  exists r, decode o (emit_doc three ml m) = Some r /\ emit_doc three ml' r = emit_doc three ml' m.
+Proof. exact fixpoint. Qed.
+Print Assumptions C17_fixpoint.
+
+(* PLAIN AND PRETTY read back to the same value *)
+Theorem C17_plain_pretty : forall three o m,
+  wf_tv (TTab m) = true ->
+  decode o (emit_doc three true m) = decode o (emit_doc three false m) /\
+  decode o (emit_doc three false m) <> None.
+Proof. exact plain_pretty. Qed.
+Print Assumptions C17_plain_pretty.
 
 (* the value held by a key/value line is the same in the plain and in the pretty layout *)
 Theorem C17_line_value_layout_free : forall ml e, value_of (fmt_value ml e) = value_of (fmt_value false e).
 Proof. exact value_of_fmt_value. Qed.
 Print Assumptions C17_line_value_layout_free.
+
+(* ------------------------------------------------------------------------------------------ *)
+(* Examples: a tree whose key order interleaves scalars, arrays, mixed arrays, arrays of tables and
+   tables (the witness of lib/props/c17.py), in insertion order and sorted *)
+Require Import String.
+From TV Require Import Extract.Show.
+Definition k (s : string) : bytes := str s.
+Definition L (s : string) : tv := TLeaf (str s).
+Definition ex1 : list (bytes * tv) :=
+  [(k "t", TTab [(k "x", L "i1"); (k "s", TTab [(k "y", L "i2")]); (k "z", L "i3")]);
+   (k "a", L "i1");
+   (k "aot", TArr [TTab [(k "q", L "i1"); (k "sub", TTab [(k "w", L "i1")]); (k "r", L "i2")]; TTab []]);
+   (k "mixed", TArr [L "i1"; TTab [(k "a", TTab [(k "b", L "i1")])]]);
+   (k "e", TTab []);
+   (k "only", TTab [(k "sub", TTab [])]);
+   (k "arr", TArr [L "i1"; L "i2"]);
+   (k "b", L "s78");
+   (k "ea", TArr []);
+   (k "nest", TArr [TArr [TTab [(k "a", L "i1")]]]);
+   (k "", TTab [(k "", TArr [TTab []])])].
+Definition ex1_sorted : list (bytes * tv) := match build OSorted (TTab ex1) with TTab m => m | _ => [] end.
+
+Example ex1_wf : wf_tv (TTab ex1) = true /\ wf_tv (TTab ex1_sorted) = true /\ sorted_tv (TTab ex1_sorted).
+Proof. repeat split; vm_compute; reflexivity. Qed.
+
+(* the header lines of to_string(&Value::Table(ex1)) under insertion order *)
+Example ex1_headers :
+  map (fun s => (s_kind s, s_path s)) (emit_value_doc false ex1)
+  = [(KRoot, []); (KArr, [k "aot"]); (KStd, [k "aot"; k "sub"]); (KArr, [k "aot"]);
+     (KStd, [k "t"]); (KStd, [k "t"; k "s"]); (KStd, [k "e"]); (KStd, [k "only"; k "sub"]); (KArr, [k ""; k ""])].
+Proof. vm_compute. reflexivity. Qed.
+
+(* ... and its root key/value lines: plain values in map order, then the mixed array *)
+Example ex1_root_lines :
+  map fst (s_lines (hd (mkSec [] KRoot []) (emit_value_doc false ex1)))
+  = [k "a"; k "arr"; k "b"; k "ea"; k "nest"; k "mixed"].
+Proof. vm_compute. reflexivity. Qed.
+
+(* Display for Table keeps the map order of sub-tables and arrays of tables at the root *)
+Example ex1_table_headers :
+  map (fun s => (s_kind s, s_path s)) (emit_table_doc false ex1)
+  = [(KRoot, []); (KStd, [k "t"]); (KStd, [k "t"; k "s"]); (KArr, [k "aot"]); (KStd, [k "aot"; k "sub"]); (KArr, [k "aot"]);
+     (KStd, [k "e"]); (KStd, [k "only"; k "sub"]); (KArr, [k ""; k ""])].
+Proof. vm_compute. reflexivity. Qed.
+
+Example ex1_fixpoint_insertion :
+  option_map (emit_value_doc false) (decode OInsertion (emit_value_doc false ex1)) = Some (emit_value_doc false ex1)
+  /\ option_map (emit_table_doc false) (decode OInsertion (emit_table_doc false ex1)) = Some (emit_table_doc false ex1).
+Proof. split; vm_compute; reflexivity. Qed.
+
+Example ex1_sorted_decodes :
+  decode OSorted (emit_value_doc false ex1_sorted) = Some ex1_sorted /\
+  decode OSorted (emit_value_doc true ex1) = Some ex1_sorted /\
+  decode OSorted (emit_table_doc false ex1) = Some ex1_sorted.
+Proof. repeat split; vm_compute; reflexivity. Qed.
+
+Example ex1_plain_pretty_differ_but_decode_alike :
+  emit_value_doc true ex1 <> emit_value_doc false ex1 /\
+  read_back (emit_value_doc true ex1) = read_back (emit_value_doc false ex1).
+Proof. split; [vm_compute; discriminate|vm_compute; reflexivity]. Qed.
+
+(* the reader is strict: a table opened again after one of its sub-tables, a key defined twice and a
+   header through a value are refused *)
+Example reader_refuses :
+  read_back [mkSec [] KRoot []; mkSec [k "a"] KStd []; mkSec [k "a"; k "b"] KStd []; mkSec [k "a"] KStd [(k "x", VLeaf (k "i1"))]] = None /\
+  read_back [mkSec [] KRoot [(k "x", VLeaf (k "i1")); (k "x", VLeaf (k "i2"))]] = None /\
+  read_back [mkSec [] KRoot [(k "x", VLeaf (k "i1"))]; mkSec [k "x"; k "y"] KStd []] = None /\
+  read_back [mkSec [] KRoot []; mkSec [k "a"; k "b"] KStd []; mkSec [k "a"] KStd [(k "x", VLeaf (k "i1"))]]
+  = Some [(k "a", TTab [(k "b", TTab []); (k "x", TLeaf (k "i1"))])].
+Proof. repeat split; vm_compute; reflexivity. Qed.
